@@ -17,9 +17,9 @@ K_SITE_FLOOR = 35
 # ---- T2 audited explicit-panic sites in K: key -> (shape regex on the expression, reason)
 T2 = {
     "index|%screate_with_alignment|Vec::index|0" % DE:
-        (r"self\.parameters, .*Range\{start: next_state, end: Add\(state, self\.nstate\)", "times.len() == labels.len() (Labels::new rejects a mismatch) and the duration model yields nstate Gaussians per label (record length num_states*2), so state+nstate <= parameters.len(); next_state <= state"),
+        (r"self\.parameters, .*Range\{start: %1, end: Add\(%2, self\.nstate\)", "times.len() == labels.len() (Labels::new rejects a mismatch) and the duration model yields nstate Gaussians per label (record length num_states*2), so state+nstate <= parameters.len(); next_state <= state"),
     "index|%screate_with_alignment|Vec::index|1" % DE:
-        (r"self\.parameters, .*Range\{start: next_state, end: Add\(state, self\.nstate\)", "same range as the fitted group"),
+        (r"self\.parameters, .*Range\{start: %1, end: Add\(%2, self\.nstate\)", "same range as the fitted group"),
     "arith-api|%screate|sum|0" % DE:
         (r"sum\(", "sum of per-state frame counts; overflow would need more frames than memory can hold (each frame allocates)"),
     "arith-api|%screate_with_alignment|sum|0" % DE:
@@ -443,10 +443,10 @@ def r6(ctx, p, cg, K):
         if ent:
             used.add(s.key)
             rx, reason = ent
-            if re.search(rx, s.detail + " " + str(s.extra.get("msg", ""))):
+            if re.search(rx, s.shape() + " " + str(s.extra.get("msg", ""))):
                 ctx.ok("C01-R6", "T2 %s  %s" % (s.key, s.detail[:100]), s.loc(), reason)
             else:
-                ctx.fail("C01-R6", s.fn, "%s %s" % (s.kind, s.api), "audited site changed shape: expected /%s/ in `%s`" % (rx, s.detail[:200]), s.loc())
+                ctx.fail("C01-R6", s.fn, "%s %s" % (s.kind, s.api), "audited site changed shape: expected /%s/ in `%s`" % (rx, s.shape()[:200]), s.loc())
             continue
         if s.key == "panic|%snew|panic|2" % SG or (s.fn == SG + "new" and s.kind == "panic" and "odd" in s.detail):
             odd_lpf(ctx, p, s)
@@ -551,11 +551,30 @@ def r7(ctx, p):
 
     def local_of(e):
         return e[1] if e[0] == "var" and isinstance(e[1], int) else None
+    # the locals moved into the literal's wuw / wum fields (followed through plain moves): by role,
+    # not by the variables' names
+    agg_items = [item for bb, e, item in paths.return_exprs(b, eb) if e[0] == "agg" and e[1].endswith("MlpgMatrix::MlpgMatrix")]
+
+    def moved_local(op):
+        seen = 0
+        while op.get("k") in ("move", "copy") and not op["place"]["proj"] and seen < 8:
+            l = op["place"]["local"]
+            ds = [d for d in b.defs().get(l, []) if not b.is_cleanup(d[0])]
+            if len(ds) == 1 and ds[0][1] != "term" and ds[0][2]["rv"]["k"] == "use" and ds[0][2]["rv"]["op"].get("k") in ("move", "copy") and not ds[0][2]["rv"]["op"]["place"]["proj"]:
+                op = ds[0][2]["rv"]["op"]
+                seen += 1
+                continue
+            return l
+        return None
     wuw_l, wum_l = local_of(f["wuw"]), local_of(f["wum"])
-    if wuw_l is None:
-        wuw_l = names.get("wuw")
-    if wum_l is None:
-        wum_l = names.get("wum")
+    rv = agg_items[0].get("rv") if agg_items and isinstance(agg_items[0], dict) else None
+    if rv and rv.get("k") == "aggregate":
+        fnames = rv["kind"].get("fields") or []
+        for fname, op in zip(fnames, rv["ops"]):
+            if fname == "wuw" and wuw_l is None:
+                wuw_l = moved_local(op)
+            if fname == "wum" and wum_l is None:
+                wum_l = moved_local(op)
     loops = b.natural_loops()
 
     def rows_of(target_local, want_inner):
